@@ -363,6 +363,18 @@ class ConcreteCtx(_CtxBase):
         if not cond:
             self.assume_failed.append("assume")
 
+    def branch(self, e):
+        """A proxy built from concrete values (ground term) reached a bool(): evaluate it."""
+        e = z3.simplify(e)
+        if z3.is_true(e):
+            return True
+        if z3.is_false(e):
+            return False
+        raise HarnessError(f"non-ground term in concrete mode: {e}")
+
+    def add(self, *es):
+        pass
+
     def prove(self, label, cond, when=True, info=None):
         if not when:
             return
@@ -624,6 +636,40 @@ class SBV:
 
     def __add__(s, o):
         return SBV(s.e + s._l(o))
+
+    __radd__ = __add__
+
+    def __sub__(s, o):
+        return SBV(s.e - s._l(o))
+
+    def __rsub__(s, o):
+        return SBV(s._l(o) - s.e)
+
+    def __mul__(s, o):
+        return SBV(s.e * s._l(o))
+
+    __rmul__ = __mul__
+
+    def __mod__(s, o):
+        d = s._l(o)
+        if ctx().branch(d == 0):
+            raise ZeroDivisionError("integer modulo by zero")
+        return SBV(z3.URem(s.e, d))
+
+    def __floordiv__(s, o):
+        d = s._l(o)
+        if ctx().branch(d == 0):
+            raise ZeroDivisionError("integer division or modulo by zero")
+        return SBV(z3.UDiv(s.e, d))
+
+    def __invert__(s):
+        return SBV(~s.e)
+
+    def __rlshift__(s, o):
+        return SBV(s._l(o) << s.e)
+
+    def __rrshift__(s, o):
+        return SBV(z3.LShR(s._l(o), s.e))
 
     def __eq__(s, o):
         return SBool(s.e == s._l(o))
